@@ -80,7 +80,7 @@ fn managers() -> Vec<(String, TableMgr)> {
 
 pub fn run(tier: Tier) -> i32 {
     let rep = Report::new("C13", tier);
-    rep.set_rule("A: Extension::new for all 65536 ids x data lengths 0..=10. B: all chains of length 1..=3 (thorough 1..=4) over a 10-letter alphabet (one optional id per H-LEN class, three known non-final mandatory ids with 0/1/8 data bytes, two final mandatory ids in last position) x protocol types {matching, another id < 0x100, 0x0100, 0x05FF, 0x0600, 0x0800} x labels {6B, 3B, broadcast, substituted re-use} x PDU lengths {0,1,7} x EVERY buffer size 0..=complete size+3 (plus 4097, 70000), fragmented results completed with encap_frag; receivers knowing all / all-but-one (each in turn) / none of the mandatory ids, storage = PDU length and +8. Oracle: Ok => reference parser recovers the same chain/ptype/label/payload and reported length = wire length; knowing receiver delivers the same; receiver missing a used mandatory id rejects consuming exactly the packet, also when more bytes follow. distinct = (call, outcome, chain length / manager class)");
+    rep.set_rule("A: Extension::new for all 65536 ids x data lengths 0..=10. B: all chains of length 1..=3 (thorough 1..=4) over a 10-letter alphabet (one optional id per H-LEN class, three known non-final mandatory ids with 0/1/8 data bytes, two final mandatory ids in last position) x protocol types {matching, another id < 0x100, 0x0100, 0x05FF, 0x0600, 0x0800} x labels {6B, 3B, broadcast, substituted re-use} x PDU lengths {0,1,7} x EVERY buffer size 0..=complete size+3 (plus 4097, 70000), and for chains <= 2 PDU lengths {4060,4078,4085,4088,4090,4093,4096} x buffers around the complete size, 4090..=4110, 13, 40, 8192, fragmented results completed with encap_frag; receivers knowing all / all-but-one (each in turn) / none of the mandatory ids, storage = PDU length and +8. Oracle: Ok => reference parser recovers the same chain/ptype/label/payload and reported length = wire length; knowing receiver delivers the same; receiver missing a used mandatory id rejects consuming exactly the packet, also when more bytes follow. distinct = (call, outcome, chain length / manager class)");
     part_constructor(&rep);
     let maxlen = if tier.thorough() { 4 } else { 3 };
     let ch = chains(maxlen);
@@ -135,12 +135,13 @@ pub fn run(tier: Tier) -> i32 {
             // a receiver knowing other mandatory ids than the ones used
             mgrs.push(("others-only".to_string(), TableMgr { known: vec![(0x0077, false, 2)] }));
             let all_mgr = case_mgr.clone();
-            for &p in &[0usize, 1, 7] {
+            let big_ps: &[usize] = if c.len() <= 2 { &[4060, 4078, 4085, 4088, 4090, 4093, 4096] } else { &[] };
+            for &p in [0usize, 1, 7].iter().chain(big_ps.iter()) {
                 let pd = pdu(p, 0);
                 for (li, &(l, prior)) in [(L6A, Prior::Fresh), (L3A, Prior::Fresh), (Lbl::Bcast, Prior::Fresh), (L6A, Prior::Same)].iter().enumerate() {
                     let ext_wire: usize = c.iter().map(|e| 2 + e.1.len()).sum();
                     let complete_size = 2 + 2 + l.wire_len() + ext_wire + p;
-                    let mut bl: Vec<usize> = (0..=complete_size + 3).collect();
+                    let mut bl: Vec<usize> = if p <= 7 { (0..=complete_size + 3).collect() } else { (complete_size - 5..=complete_size + 3).chain(4090..=4110).chain([13, 40, 8192]).collect() };
                     bl.extend([4097, 70000]);
                     for b in bl {
                         let mut enc = build_prior(DefaultCrc {}, prior, l);
@@ -185,11 +186,26 @@ pub fn run(tier: Tier) -> i32 {
                                     if meta.exts != want_exts || meta.pt != pt || meta.label != l || *consumed != n {
                                         rep.violation("C13|receiver|first-fragment-metadata", rank, || (format!("{}: first fragment decoded as {}", desc, d1.brief()), wit()));
                                     }
-                                    let mut bb = vec![0u8; 64];
-                                    match do_encap_frag(&enc, &pd, *ctx, &mut bb) {
-                                        EncOut::Completed(n2) => do_decap(&mut rx, &bb[..n2]),
-                                        other => {
-                                            rep.violation("C13|continuation-fails", rank, || (format!("{}: encap_frag into a 64-byte buffer -> {:?}", desc, other), wit()));
+                                    let mut bb = vec![0u8; 4200];
+                                    let mut cur = *ctx;
+                                    let mut last: Option<DecapOut> = None;
+                                    for _ in 0..6 {
+                                        match do_encap_frag(&enc, &pd, cur, &mut bb) {
+                                            EncOut::Completed(n2) => {
+                                                last = Some(do_decap(&mut rx, &bb[..n2]));
+                                                break;
+                                            }
+                                            EncOut::Fragmented(n2, c2) => {
+                                                let _ = do_decap(&mut rx, &bb[..n2]);
+                                                cur = c2;
+                                            }
+                                            _ => break,
+                                        }
+                                    }
+                                    match last {
+                                        Some(d) => d,
+                                        None => {
+                                            rep.violation("C13|continuation-fails", rank, || (format!("{}: encap_frag into 4200-byte buffers does not finish the PDU", desc), wit()));
                                             continue;
                                         }
                                     }
@@ -214,7 +230,8 @@ pub fn run(tier: Tier) -> i32 {
                         for (mname, m) in &mgrs {
                             let missing = mand_used.iter().any(|id| m.lookup(*id).is_none());
                             for tail in [&[][..], &[0x00, 0x00][..], &[0xC0, 0x05, 0x08, 0x00, 0x31, 0x32, 0x33][..]] {
-                                let mut rx = RxS::new(2, 16, &[16, 16]).build(DefaultCrc {}, m.clone());
+                                let st = p.max(16);
+                                let mut rx = RxS::new(2, st, &[st, st]).build(DefaultCrc {}, m.clone());
                                 rx.verif_set_last_label(if prior == Prior::Same { Some(l.to_label()) } else { None });
                                 let mut input = buf[..n].to_vec();
                                 input.extend_from_slice(tail);
